@@ -470,3 +470,6 @@ func (r *Rng) Pick2(a, b string) string {
 	}
 	return b
 }
+
+// PickU64 returns one of the given values.
+func (r *Rng) PickU64(xs []uint64) uint64 { return xs[r.Intn(len(xs))] }
